@@ -95,6 +95,13 @@ type Guard struct {
 	Mutexes []string
 }
 
+// LockOrder: `lockorder (T1).mu1 < (T2).mu2` - a goroutine that acquires T1.mu1 must not hold any
+// T2.mu2 (of an object other goroutines can reach); checked as obligation lockorder.N at every Lock of T1.mu1.
+type LockOrder struct {
+	Pkg, First, Second string // First/Second: "T.mu"
+	Line              int
+}
+
 type LockInv struct {
 	Type, Pkg, Mutex string
 	C                Clause
@@ -104,6 +111,7 @@ type ContractDB struct {
 	Dups []string
 	Guards   map[string]*Guard // key: pkgpath.Type.field
 	LockInvs map[string]*LockInv // key: pkgpath.Type.mutex
+	LockOrders []LockOrder
 	GhostFields map[string]bool
 	Funcs   map[string]*Contract
 	Specs   map[string]*SpecFunc
@@ -119,7 +127,7 @@ func NewContractDB() *ContractDB {
 var clauseKeywords = map[string]bool{
 	"func": true, "extern": true, "spec": true, "axiom": true, "lemma": true,
 	"requires": true, "ensures": true, "modifies": true, "loop": true, "assert-at": true, "assume-at": true, "ghost-at": true,
-	"guarded": true, "lockinv": true, "pure": true, "opt": true, "readonly": true, "decreases": true, "induction": true, "uses": true,
+	"guarded": true, "lockinv": true, "lockorder": true, "pure": true, "opt": true, "readonly": true, "decreases": true, "induction": true, "uses": true,
 }
 
 // LoadContractFile parses one comment-only contract file. pkgPath is the import
@@ -388,6 +396,13 @@ func (db *ContractDB) LoadContractFile(path, pkgPath string) error {
 				f = strings.TrimSpace(f)
 				db.Guards[pkgPath+"."+m[1]+"."+f] = &Guard{Type: m[1], Pkg: pkgPath, Field: f, Mutexes: mus}
 			}
+		case "lockorder":
+			// lockorder (T1).mu1 < (T2).mu2
+			m := regexp.MustCompile(`^\(([A-Za-z0-9_]+)\)\.([A-Za-z0-9_]+)\s*<\s*\(([A-Za-z0-9_]+)\)\.([A-Za-z0-9_]+)$`).FindStringSubmatch(strings.TrimSpace(rest))
+			if m == nil {
+				return fmt.Errorf("%s:%d: lockorder (T1).mu1 < (T2).mu2", path, rc.line)
+			}
+			db.LockOrders = append(db.LockOrders, LockOrder{Pkg: pkgPath, First: m[1] + "." + m[2], Second: m[3] + "." + m[4], Line: rc.line})
 		case "lockinv":
 			// lockinv (T).mu : expr   (the receiver is named `this`)
 			k := strings.Index(rest, " : ")
